@@ -355,12 +355,15 @@ func driveWrap(wp *lz.WrappedParser, cc *C08Case, r io.Reader, rd *wrapReader, s
 	maxCalls := len(rd.data) + 600 + 16
 	maxReads := 64 + 8*len(rd.data) + 700
 	errorsSeen := 0
+	// one block value for the whole stream, as a caller reuses it; its whole
+	// capacity is overwritten before every call (memory handed out by the
+	// parser in place of a copy is thereby destroyed)
+	var blk lz.Block
 	for {
 		if stopAfter >= 0 && len(res.blocks) >= stopAfter {
 			return res, "", ""
 		}
-		var blk lz.Block
-		blk.Sequences = append(blk.Sequences, sentinelSeq)
+		poisonBlock(&blk)
 		var n int
 		var perr error
 		if pv := call(func() { n, perr = wp.Parse(&blk, cc.Flags) }); pv != nil {
